@@ -101,6 +101,24 @@ def run(chk):
             sizekw = {'do_all': rnd.randint(2, 3), 'do_all_exceptions': rnd.randint(3, 5)}
             from tdda.rexpy.rexpy import Size as Size_
             kw['size'] = Size_(**sizekw)
+        elif tid % 41 == 11:
+            # lower-case letters with unusual case mappings (upper-casing gives 'SS', 'FI', 'I', 'S', ...), in every example of a group
+            pool_ = ['stra\u00dfe', 'ma\u00dfe', 'gro\u00df', 'fu\u00df', 'wei\u00df', '\ufb01x', '\ufb02y', '\ufb01n', '\u017fo', '\u0131o', '\u01f0a']
+            ex = rnd.sample(pool_[:5], rnd.randint(2, 4)) if rnd.random() < 0.6 else rnd.sample(pool_[5:], rnd.randint(2, 4))
+            if rnd.random() < 0.4:
+                ex = ['%s %d' % (e_, rnd.randint(1, 99)) for e_ in ex]
+            kw = {'dialect': rnd.choice(rx.DIALECTS)}
+            if rnd.random() < 0.3:
+                kw['tag'] = True
+            sizekw = None
+        elif tid % 41 == 13:
+            # a constant backslash followed by constant text that begins with a letter which means something after a backslash
+            suf = rnd.choice(['data', 'docs', 'd', 'dfs', 'w', 's1', 'b', 'n', 'D', 'W'])
+            ex = ['%s\\%s' % (c_, suf) for c_ in rnd.sample('pqrxyz', rnd.randint(1, 3))]
+            kw = {'dialect': rnd.choice(rx.DIALECTS)}
+            if rnd.random() < 0.3:
+                kw['tag'] = True
+            sizekw = None
         elif tid % 41 == 7:
             # two shapes that share a constant at the same place from the left; the shorter shape ends there
             sep = rnd.choice([':', '-', '/', '='])
